@@ -22,6 +22,11 @@ import YashModel.Pipe.FileLemmas
 import YashModel.Pipe.TwoWritersLemmas
 import YashModel.Pipe.WakeLemmas
 import YashModel.Pipe.ChainLemmas
+import YashModel.Pipe.ChainMeasure
+import YashModel.Pipe.OpsLemmas
+import YashModel.Pipe.WChainLemmas
+import YashModel.Pipe.StopLemmas
+import YashModel.Pipe.ReadCompose
 namespace YashModel.Pipe
 
 variable {α : Type}
@@ -320,6 +325,33 @@ theorem flow_model_eq_spec (c : Cfg) (hv : c.Valid) (shape : List Char)
       trim_eq_spec]
     rcases hch with h | h | h | h | h <;> subst h <;> simp [ih hrest]
 
+/-- ★ What a command substitution hands to the shell, stated exactly, for the character the code trims (extracted
+    from `expand_common` on this run, `SUBST_TRIM_CHAR`): for EVERY output `bs` of the child (any length — far
+    beyond PIPE_SIZE —, any bytes; `lossyFF` = the lossy decoding, the identity on output without 0xFF bytes), the
+    value is the decoded output minus ALL its trailing newlines and nothing else: value ++ k newlines = decoded
+    output for some k; the value does not end in a newline; it is the only list with these two properties; and it
+    is a prefix of the decoded output (interior newlines, and every other byte, are kept in place). -/
+theorem subst_strips_exactly (bs : List Nat) :
+    (∃ k, substValue bs ++ List.replicate k Generated.PipeConsts.SUBST_TRIM_CHAR = lossyFF bs) ∧
+    (substValue bs).getLast? ≠ some Generated.PipeConsts.SUBST_TRIM_CHAR ∧
+    (∀ t k, t ++ List.replicate k Generated.PipeConsts.SUBST_TRIM_CHAR = lossyFF bs →
+      t.getLast? ≠ some Generated.PipeConsts.SUBST_TRIM_CHAR → t = substValue bs) ∧
+    substValue bs = (lossyFF bs).take (substValue bs).length ∧
+    ((∀ b ∈ bs, b ≠ 255) → lossyFF bs = bs) := by
+  have e : Generated.PipeConsts.SUBST_TRIM_CHAR = 10 := rfl
+  rw [e]
+  have h1 := trim_exact (10 : Nat) (lossyFF bs)
+  refine ⟨⟨_, h1.1⟩, h1.2, fun t k ht hl => trim_unique 10 (lossyFF bs) t k ht hl, ?_, lossyFF_id bs⟩
+  have h2 : (trimEnd 10 (lossyFF bs) ++
+      List.replicate ((lossyFF bs).length - (trimEnd 10 (lossyFF bs)).length) 10).take
+        (trimEnd 10 (lossyFF bs)).length = trimEnd 10 (lossyFF bs) := by simp
+  rw [h1.1] at h2
+  exact h2.symm
+
+/-- on a concrete output with interior and trailing newlines and a multi-byte character -/
+example : substValue [230, 157, 177, 10, 10, 97, 10, 195, 169, 10, 10, 10] = [230, 157, 177, 10, 10, 97, 10, 195, 169] := by
+  decide
+
 /-! ### the Spec's POSIX laws are met by the model operations (Spec column characterised) -/
 
 /-- the model's `write` obeys the POSIX write law of the Spec (`specWriteOk`, incl. the `_POSIX_PIPE_BUF`
@@ -419,6 +451,53 @@ theorem early_close_epipe (c : Cfg) (s : Sys α) (k : Nat) (_hk : 1 ≤ k)
     simp only [he, Bool.false_eq_true, if_false, hwr]
   · simp [Fifo.closeFd]
 
+/-- ★ A reader that stops after K bytes gets exactly the first K bytes.  For the function the driver runs for
+    `xfer … stop=K` (`runSchedStop … (some K)` with the driver's fuel: the reader asks for at most what is missing
+    to K and closes its end once it has K bytes), for every payload, valid capacity, seed, writer piece size,
+    reader buffer size and K: the run ends with both processes finished; the reader holds exactly
+    `payload.take K` — the first K bytes in order, all of the payload when K exceeds it; the writer has either
+    completed (`closed`, nothing left unsent) or met EPIPE (`failed`), and it has met EPIPE whenever more than
+    K + PIPE_SIZE bytes were to be sent; nothing is reordered: received ++ buffered ++ unsent is still the
+    payload. -/
+theorem stop_delivers_exactly (c : Cfg) (hv : c.Valid) (seed wk rk K : Nat) (x : List α) :
+    let s := runSchedStop c x.length wk rk (some K) (12 * x.length + 200) seed (Sys.init x)
+    s.rpc = .done ∧ s.received = x.take K ∧ (s.wpc = .closed ∨ s.wpc = .failed) ∧
+      (s.wpc = .closed → s.unsent = []) ∧ (K + c.pipeSize < x.length → s.wpc = .failed) ∧
+      s.received ++ s.pipe.content ++ s.unsent = x := by
+  have hm : (Sys.init x).measure c ≤ 12 * x.length + 200 := by
+    have : (Sys.init x).measure c = 6 * x.length + 6 := by simp [Sys.measure, Sys.init, wcostOf, rcostOf]
+    omega
+  obtain ⟨hi, hw, hr⟩ := runStop_end hv x.length wk rk (12 * x.length + 200) seed (Sys.init x)
+    (sinv_init c x K) hm
+  simp only
+  generalize runSchedStop c x.length wk rk (some K) (12 * x.length + 200) seed (Sys.init x) = s at hi hw hr
+  obtain ⟨hd, hwp⟩ := stop_final hv hi hw hr
+  have hcons := hi.cons.1
+  have hcap := hi.cons.2
+  have hrecv : s.received = x.take K := by
+    rcases hi.done_imp hd with h | ⟨h1, h2⟩
+    · rw [← hcons, List.append_assoc, ← h, List.take_left']
+      rfl
+    · have hu := hi.closed_imp h1
+      rw [h2, hu] at hcons
+      simp only [List.append_nil] at hcons
+      rw [← hcons, List.take_of_length_le hi.lenK]
+  refine ⟨hd, hrecv, hwp, hi.closed_imp, fun hlt => ?_, hcons⟩
+  rcases hwp with h | h
+  · have hu := hi.closed_imp h
+    have hl := congrArg List.length hcons
+    simp only [hu, List.length_append, List.length_nil] at hl
+    have := hi.lenK
+    omega
+  · exact h
+
+/-- `stop_delivers_exactly` evaluated (PIPE_SIZE 8, PIPE_BUF 4): 30 bytes, the reader stops after 5 — it holds
+    bytes 0…4, the writer (more than 5 + 8 bytes to send) ends with EPIPE -/
+example :
+    let s := runSchedStop ({ pipeSize := 8, pipeBuf := 4 } : Cfg) 30 0 3 (some 5) (12 * 30 + 200) 7 (Sys.init (List.range 30))
+    s.received = [0, 1, 2, 3, 4] ∧ s.wpc = .failed ∧ s.rpc = .done := by
+  decide
+
 /-! ### the `read` built-in -/
 
 /-- ★ `IFS= read -r` on a pipe or file holding `utf8 line ++ "\n" ++ rest`, for **every** line of
@@ -457,6 +536,75 @@ theorem read_line_chunking_irrelevant (raw : Bool) (fuel : Nat) (input acc : Lis
 theorem short_reads_collect_prefix (need : Nat) (input : List UInt8) (shorts : List Nat) :
     (gather need input shorts).1 = input.take need ∧ (gather need input shorts).2.1 = input.drop need :=
   gatherF_spec need need input shorts (Nat.le_refl _)
+
+/-- ★ C14 ∘ C18: the two transcriptions of `read/input.rs` agree.  On every ASCII input, with or without `-r`,
+    C14's reader (`readLine`, File.lean) and C18's reader (`Input.readLine`, Input/Model.lean) find a newline or not
+    alike and leave the same bytes on the descriptor; neither reports EILSEQ. -/
+theorem read_agrees_with_input_model (raw : Bool) (input : List UInt8) (h : ∀ b ∈ input, b < 0x80) :
+    convP (readLine raw (input.length + 1) input []) = convIn (Input.readLine 10 raw input []) :=
+  (read_agree_aux raw input h).1 _ _ _ (Nat.le_refl _)
+
+/-- ★ Non-raw `read` behind a pipe takes exactly one logical line (C18's Spec, `Input.firstLogicalLine`: the
+    shortest prefix that ends in a newline preceded by an even number of backslashes; with `-r`: the first
+    newline): for every ASCII input and every schedule of short reads (`shorts`: a backslash may be the last byte
+    of a chunk, a backslash-newline continuation may straddle two chunks), if the reader reports a complete line
+    then what it consumed is that first logical line and what it leaves is exactly what follows it; if it reports
+    end of input then no prefix of the input is a complete logical line and nothing is left; it never fails. -/
+theorem read_takes_one_logical_line (raw : Bool) (input : List UInt8) (shorts : List Nat)
+    (h : ∀ b ∈ input, b < 0x80) :
+    match readLineChunked raw (input.length + 1) input [] shorts with
+    | .line _ true rest => ∃ pre, pre ++ rest = input ∧ Input.firstLogicalLine 10 raw input = some (pre, rest)
+    | .line _ false rest => rest = [] ∧ Input.firstLogicalLine 10 raw input = none
+    | .eilseq => False := by
+  rw [read_line_chunking_irrelevant]
+  have ha := read_agrees_with_input_model raw input h
+  obtain ⟨g1, g2, g3⟩ := Input.read_logical_line 10 (by decide) raw input
+  cases hr : readLine raw (input.length + 1) input [] with
+  | eilseq =>
+    rw [hr] at ha
+    simp only [convP, convIn] at ha
+    split at ha <;> simp at ha
+    rename_i herr
+    -- C18's reader fails only on invalid UTF-8; ASCII input is valid
+    have hv := (g3 herr).1
+    exact absurd hv (by
+      have : Input.validUtf8 [] input = true := by
+        clear ha hr g1 g2 g3 herr hv
+        induction input with
+        | nil => simp [Input.validUtf8]
+        | cons b t ih =>
+          have hb := h b List.mem_cons_self
+          have := ih fun x hx => h x (List.mem_cons_of_mem _ hx)
+          have hc := utf8Check_ascii hb
+          simp only [List.nil_append] at hc
+          simp [Input.validUtf8, hc, this]
+      simp [this])
+  | line v nl rest =>
+    rw [hr] at ha
+    simp only [convP, convIn] at ha
+    split at ha
+    · rename_i hf
+      simp only [Option.some.injEq, Prod.mk.injEq] at ha
+      obtain ⟨rfl, hrest⟩ := ha
+      obtain ⟨pre, e1, e2⟩ := g1 hf
+      simp only
+      rw [hrest]
+      exact ⟨pre, e1, e2⟩
+    · rename_i hf
+      simp only [Option.some.injEq, Prod.mk.injEq] at ha
+      obtain ⟨rfl, hrest⟩ := ha
+      obtain ⟨e1, e2⟩ := g2 hf
+      simp only
+      rw [hrest]
+      exact ⟨e2, e1⟩
+    · simp at ha
+
+/-- on a concrete input `a\⏎b\\⏎rest`: a continuation line, an escaped backslash before the newline, text after
+    it; short reads of 1, 1, 2 bytes -/
+example :
+    readLineChunked false 20 [97, 92, 10, 98, 92, 92, 10, 114, 101, 115, 116] [] [1, 1, 2] =
+      .line [97, 98, 92] true [114, 101, 115, 116] := by
+  decide
 
 /-! ### two writers on one pipe -/
 
@@ -723,6 +871,33 @@ theorem wtransfer_delivers (c : Cfg) (hv : c.Valid) (seed wk rk : Nat) (x : List
     wtransfer c seed wk rk x = some x :=
   wtransfer_eq c hv seed wk rk x
 
+/-- ★ The wake-up law of the operation-sequence machine for ALL histories (until wave 3 evaluated per case only):
+    after every operation sequence — any number of open slots on the FIFO, any interleaving of `open`, `fcntl`,
+    `close`, `write`, `read` (blocking or not, through the system call or the open file description), `select`,
+    `park` (a `select` kept alive while pending, any number of them, in the reader set, the writer set or both)
+    and `poll` — no parked `select` whose waker has not fired waits for a descriptor that is ready.  Since the
+    driver evaluates `lostWakeup` on `opsFrom {} 0 prefix` after each operation, its Spec column can never say
+    `lost-wakeup`: the per-case check is a corollary.  Proof: `OInv` (an unfired parked select is registered in
+    the matching waker set of the FIFO and its descriptor is not ready; ids are distinct) is preserved because
+    every transition of the FIFO is wake-safe (`Trans`: readiness turns true only together with a `wake_all` of
+    the matching set). -/
+theorem ops_no_lost_wakeup (ops : List Op) : lostWakeup (opsFrom {} 0 ops) = false :=
+  (opsFrom_inv ops {} 0 OInv.init).no_lost
+
+/-- … and every single operation keeps the law from any state that satisfies the invariant -/
+theorem op_keeps_wake_invariant (st : OpState) (i : Nat) (op : Op) (hi : OInv st) :
+    OInv (opStep st i op).2.1 ∧ lostWakeup (opStep st i op).2.1 = false :=
+  ⟨opStep_inv st i op hi, (opStep_inv st i op hi).no_lost⟩
+
+/-- the invariant is not vacuous: a reader and a writer slot, a `select` for reading parked on the empty pipe —
+    registered and unfired, the pipe not ready for reading; a write of 3 bytes fires it -/
+example :
+    let st := opsFrom {} 0 [.openFd true false, .openFd false true, .park 0 true false]
+    let st' := opsFrom st 3 [.write 1 3]
+    st.parked = [(0, 0, true, false)] ∧ st.wk.pendR = [0] ∧ st.wk.fired = [] ∧ st.fifo.readyR = false ∧
+      st'.wk.fired = [0] ∧ st'.wk.pendR = [] ∧ st'.fifo.readyR = true := by
+  decide
+
 /-! ### non-vacuity and necessity of the hypotheses -/
 
 /-- a concrete reachable non-trivial state with the real capacity: 3000 bytes, the writer asks for
@@ -962,27 +1137,95 @@ theorem chain_generalises_pipe (c : Cfg) (payload : List α) (s : Sys α) (hr : 
       s.embed.total = s.received ++ s.pipe.content ++ s.unsent :=
   ⟨reach_embed hr, rfl, by simp [Sys.embed, Chain.total]⟩
 
-/-- What the driver computes for `xfer … mid=M` (`chainTransfer`: the seeded executor over the `M + 2` processes)
-    can only be the payload.  Full statement `chainTransfer c seed m wk rk x = some x` needs a termination
-    measure for the chain (every step lowers a position-weighted byte count), which is not proved: what is
-    missing is that the fuel `(m + 2)·(12·|x| + 200)` suffices; a run that exhausted it would print `stuck`
-    and disagree with the implementation. -/
-theorem chain_transfer_delivers_partial (c : Cfg) (seed m wk rk : Nat) (x y : List α)
-    (h : chainTransfer c seed m wk rk x = some y) : y = x := by
+/-- ★ Progress in a pipeline of any length: every step of every process — any of the `m + 2`, any read buffer and
+    write request ≥ 1 byte — strictly lowers `Chain.measure` (each byte weighted by how far it is from the sink:
+    3 in the last pipe, 4 more in a stage's hand, 3 more in the pipe before it; plus a readiness-dependent cost per
+    process, so that suspend / resume cannot alternate for ever).  Uses `1 ≤ PIPE_BUF ≤ PIPE_SIZE`. -/
+theorem chain_progress (c : Cfg) (hv : c.Valid) (m : Nat) (pre post : List α) (s s' : Chain α) (i n k : Nat)
+    (hr : CReach c m pre post s) (hn : 1 ≤ n) (hk : 1 ≤ k) (hs : s.step c i n k = some s') :
+    s'.measure c < s.measure c :=
+  (Chain.step_drop hv hn hk hr.inv.1 hs).2.1
+
+/-- ★ Termination under every scheduler: an execution of `source | m × cat | sink` on `pre ++ post` — whatever
+    process runs at each step with whatever sizes — has at most
+    `(7m + 10)·|post| + (7m + 6)·|pre| + 5m + 9` steps.  With `chain_complete`: every schedule is finite and
+    ends with exactly the payload in the sink. -/
+theorem chain_terminates (c : Cfg) (hv : c.Valid) (m : Nat) (pre post : List α) (s : Chain α) (n : Nat)
+    (he : CExec c (Chain.init m pre post) n s) :
+    n ≤ (7 * m + 10) * post.length + (7 * m + 6) * pre.length + 5 * m + 9 := by
+  have := CExec.bound hv CReach.init he
+  rw [Chain.init_measure] at this
+  omega
+
+/-- ★ End to end for a concurrent pipeline: the function the driver runs for `xfer … mid=M` (`chainTransfer`: the
+    seeded executor over the `M + 2` processes with the fuel the driver gives it) returns exactly the payload,
+    for every payload, valid capacity, number of forwarding stages, seed, write bound and buffer size. -/
+theorem chain_transfer_delivers (c : Cfg) (hv : c.Valid) (seed m wk rk : Nat) (x : List α) :
+    chainTransfer c seed m wk rk x = some x := by
   have hn1 : 1 ≤ (if rk = 0 then 1024 else rk) := by split <;> omega
   have hk1 : 1 ≤ (if wk = 0 then x.length + 1 else wk) := by split <;> omega
+  have hfuel : (Chain.init m x ([] : List α)).measure c ≤ (m + 2) * (12 * x.length + 200) := by
+    rw [Chain.init_measure]
+    exact chain_fuel_enough m x.length
   have hr := chainRun_reach (c := c) (m := m) (pre := x) (post := []) hn1 hk1
     ((m + 2) * (12 * x.length + 200)) seed _ CReach.init
-  unfold chainTransfer at h
-  generalize (if rk = 0 then 1024 else rk) = n at h hr
-  generalize (if wk = 0 then x.length + 1 else wk) = k at h hr
-  simp only at h
-  split at h
-  next hd =>
-    simp only [Option.some.injEq] at h
-    subst h
-    simpa using chain_done_complete c m x [] _ hr hd
-  next => simp at h
+  have hstop := chainRun_stops hv hn1 hk1 ((m + 2) * (12 * x.length + 200)) seed _
+    (CReach.init (c := c) (m := m) (pre := x) (post := [])) hfuel
+  unfold chainTransfer
+  generalize (if rk = 0 then 1024 else rk) = n at hr hstop
+  generalize (if wk = 0 then x.length + 1 else wk) = k at hr hstop
+  simp only
+  generalize chainRun c n k ((m + 2) * (12 * x.length + 200)) seed (Chain.init m x []) = t at hr hstop
+  have hd : t.allDone = true := by
+    cases h : t.allDone with
+    | true => rfl
+    | false =>
+      obtain ⟨i, hi, hs⟩ := chain_no_deadlock c hv m x [] t hr h
+      have := hs n k
+      rw [hstop i hi] at this
+      exact absurd this (by simp)
+  rw [if_pos hd, chain_done_complete c m x [] t hr hd]
+  simp
+
+/-! ### the n-stage chain with explicit wakers (WChain.lean) -/
+
+/-- ★ Refinement, n stages: the data side of every reachable state of the chain with wakers (any interleaving, any
+    sizes ≥ 1, spurious polls included) is a reachable state of the waker-free chain — so `chain_conservation`,
+    `chain_capacity`, `chain_no_epipe`, `chain_done_complete` hold of the system with wakers. -/
+theorem wchain_refines_chain (c : Cfg) (m : Nat) (pre post : List α) (s : WChain α)
+    (hr : WCReach c m pre post s) : CReach c m pre post s.erase :=
+  hr.erase
+
+/-- ★ No lost wake-up, for every stage of a pipeline of any length: in every reachable state only a waiting
+    process is parked, and a parked process whose waker has not fired still has it registered in the waker set of
+    the pipe it waits for, and that pipe is really not ready for it (`WChain.NL`, node by node).  So whenever a
+    peer makes the pipe ready — a write, a read that returns, a close that leaves no reader or no writer — the
+    blocked stage's waker has fired. -/
+theorem wchain_no_lost_wakeup (c : Cfg) (m : Nat) (pre post : List α) (s : WChain α)
+    (hr : WCReach c m pre post s) : s.NL c :=
+  hr.nl
+
+/-- ★ No deadlock with wakers, n stages: every reachable state in which some process has not finished has a
+    process that the executor may *legitimately* poll (running, or waiting and not parked, or parked and woken)
+    and whose poll is a step, whatever sizes it is offered.  Readiness alone does not enable a parked process;
+    the invariant guarantees that a parked process whose descriptor is ready has been woken. -/
+theorem wchain_no_deadlock (c : Cfg) (hv : c.Valid) (m : Nat) (pre post : List α) (s : WChain α)
+    (hr : WCReach c m pre post s) (hnf : s.erase.allDone = false) :
+    ∃ i, i < m + 2 ∧ ∀ n k, (s.step c i n k false).isSome = true := by
+  obtain ⟨i, hi, hs⟩ := chain_no_deadlock c hv m pre post s.erase hr.erase hnf
+  exact ⟨i, hi, WChain.legit_of_enabled hr.nl hs⟩
+
+/-- the hypotheses are met and the invariant bites: (PIPE_SIZE 8, PIPE_BUF 4, one `cat`) the sink and `cat` are
+    polled on empty pipes and park; the source's write fires `cat`'s waker — `cat` is parked *and woken*, the sink
+    parked and not woken, its pipe not ready -/
+example :
+    let c : Cfg := { pipeSize := 8, pipeBuf := 4 }
+    let s0 : WChain Nat := WChain.init 1 (List.range 20) []
+    let s := [(2, 3, 20), (2, 3, 20), (1, 3, 20), (1, 3, 20), (0, 3, 20)].foldl
+      (fun s (a : Nat × Nat × Nat) => ((s.step c a.1 a.2.1 a.2.2 false).map (·.1)).getD s) s0
+    (s.wkAt 1).parked = true ∧ (s.wkAt 1).woken = true ∧ (s.wkAt 2).parked = true ∧ (s.wkAt 2).woken = false ∧
+      (s.wkAt 2).reg = true ∧ (s.inpAt 2).readyR = false ∧ (s.inpAt 1).readyR = true := by
+  decide
 
 /-- the two-process chain is the writer ∥ reader system of Model.lean seen from outside: same pipe operations,
     and its first reachable states evaluated (PIPE_SIZE 8, PIPE_BUF 4, one `cat` in the middle): the source's
@@ -1016,6 +1259,16 @@ example :
       (fun s (a : Nat × Nat × Nat) => (s.step c a.1 a.2.1 a.2.2).getD s) s0
     s.allDone = false ∧ s.step c 0 1 3 = none ∧ s.step c 1 1 3 = none ∧ s.step c 2 1 3 = none := by
   decide
+
+/-- `chain_terminates` is not vacuous: a 3-step execution of a 3-process chain (PIPE_SIZE 8, PIPE_BUF 4) -/
+example : ∃ s, CExec ({ pipeSize := 8, pipeBuf := 4 } : Cfg) (Chain.init 1 (List.range 20) []) 3 s :=
+  ⟨_, .step 0 1 20 (by decide) (by decide) rfl
+        (.step 1 5 20 (by decide) (by decide) rfl
+          (.step 1 5 20 (by decide) (by decide) rfl (.refl _)))⟩
+
+/-- `chain_transfer_delivers` at the real capacity -/
+example : chainTransfer Cfg.real 7 3 513 3 (List.range 3000) = some (List.range 3000) :=
+  chain_transfer_delivers Cfg.real real_valid 7 3 513 3 _
 
 /-- the executor, evaluated: three forwarding stages (a 5-stage pipeline), 40 bytes through 8-byte pipes,
     read buffers of 3 bytes -/
